@@ -44,6 +44,8 @@ func init() {
 	ns := func(v Value) *Term { return v.(*StructVal).F[1].(*Term) }
 	now := func(t *Thread) *Term {
 		noteStub("time.Now = arbitrary non-decreasing clock (int64 ns, >= 1); time.Time methods are integer operations on it")
+		// reading the clock observes global state: it is a scheduling point like a synchronisation operation
+		t.visible()
 		ex := t.ex
 		c := ex.fresh("clock", 64)
 		lo := MkBV(1, 64)
